@@ -42,7 +42,7 @@ SHARD_TIMEOUT = {'quick': 900, 'thorough': 3400}
 MIN_HITS = {
     'quick': {**{f'rounds:{s}': 16 for s in SYSTEMS}, **{f'cont:{s}': 12 for s in SYSTEMS},
               **{f'hidden:{s}': 6 for s in SYSTEMS}, 'mon:determinism': 400, 'mon:purity': 600, 'mon:serial': 700,
-              'mon:hidden': 100, 'mon:aggkey': 50, 'repeat-participation': 120, 'xproc': 6, 'xproc:agg_rotated': 1, 'history-without-jit': 4, 'nojit:apfl': 1, 'big-leaf-arithmetic': 1},
+              'mon:hidden': 100, 'mon:aggkey': 50, 'repeat-participation': 120, 'xproc': 6, 'xproc:agg_rotated': 1, 'history-without-jit': 4, 'nojit:apfl': 1, 'big-leaf-arithmetic': 1, 'hit:apfl-round-raised': 3, 'hit:apfl-big-table': 3},
     'thorough': {**{f'rounds:{s}': 250 for s in SYSTEMS}, **{f'cont:{s}': 300 for s in SYSTEMS},
                  **{f'hidden:{s}': 150 for s in SYSTEMS}, 'mon:determinism': 6000, 'mon:purity': 9000, 'mon:serial': 10000,
                  'mon:hidden': 1800, 'mon:aggkey': 800, 'repeat-participation': 2000, 'xproc': 30, 'xproc:agg_rotated': 3, 'history-without-jit': 8, 'nojit:apfl': 2, 'big-leaf-arithmetic': 3},
@@ -563,6 +563,65 @@ def run_history(ctx, jax, fedjax, case, tmpdir):
   done(rounds_done >= 3 and repeated and all_changed)
 
 
+def run_apfl_special(ctx, jax, fedjax, rng, case_no):
+  """Two situations only APFL's per-client table is exposed to: (1) a round that FAILS half-way (the user's loss raises on a later
+  client) must leave the state it was given untouched, so that the next ordinary round from it gives what it gave before the
+  failure; (2) a state with tens of thousands of stored clients is treated like any other (applied twice => same result, input
+  table untouched)."""
+  import jax.numpy as jnp
+  from fedjax.algorithms import apfl as apfl_mod
+  dim = 3
+  drng = np.random.RandomState(int(rng.randint(2**31 - 1)))
+  w_true = drng.randn(dim)
+  raw = {b'q%d' % i: toy.make_client(drng, int(rng.randint(2, 7)), dim, w_true, idx_base=10 * i) for i in range(5)}
+  bad = toy.make_client(drng, 4, dim + 1, None, idx_base=900)       # wrong feature width: the loss raises while tracing this client
+  hp = dict(batch_size=2, num_epochs=1, num_steps=None, drop_remainder=False, skip_shuffle=False, seed=int(rng.randint(2**31 - 1)))
+  built = algos.build('apfl', cspec=('sgd', 0.1), sspec=('sgd', 1.0), hp=hp, client_coefficient=0.5)
+  ds = {c: fedjax.ClientDataset(v) for c, v in raw.items()}
+  keys = jax.random.split(jax.random.PRNGKey(int(rng.randint(2**31 - 1))), 12)
+  mode = 'failed-round' if case_no % 2 == 0 else 'big-table'
+  wit = {'family': 'apfl-special', 'mode': mode}
+  r = ctx.call('apfl.init', built.init_state, toy.make_params(drng, dim, 'flat'), witness=wit)
+  if not r.ok:
+    return ctx.case_done(None, sample=wit, klass=['apfl-special'])
+  r = ctx.call('apfl.apply', built.algo.apply, r.value, [(b'q0', ds[b'q0'], keys[0]), (b'q1', ds[b'q1'], keys[1]), (b'q2', ds[b'q2'], keys[2])], witness=wit)
+  if not r.ok:
+    return ctx.case_done(None, sample=wit, klass=['apfl-special'])
+  state1 = r.value[0]
+  cohort_b = [(b'q1', ds[b'q1'], keys[3]), (b'q3', ds[b'q3'], keys[4]), (b'q0', ds[b'q0'], keys[5])]
+  if mode == 'big-table':
+    n_extra = int([20001, 25000, 32769, 50000][(case_no // 2) % 4])
+    cs0 = state1.client_states[b'q0']
+    table = dict(state1.client_states)
+    table.update({b'z%06d' % i: cs0 for i in range(n_extra)})
+    state1 = apfl_mod.ServerState(params=state1.params, opt_state=state1.opt_state, client_states=table)
+    wit['stored_clients'] = len(table)
+  snap = take(state1)
+  ref = ctx.call('apfl.apply', built.algo.apply, state1, cohort_b, witness=wit)
+  if not ref.ok:
+    return ctx.case_done(None, sample=wit, klass=['apfl-special'])
+  ctx.count('hit:apfl-' + mode)
+  d = first(diff_snapshot(snap, state1))
+  ctx.check(d is None, 'purity/apfl-input-state-changed', f'apply changed the state it was given ({d[0]} at {d[1]})' if d else '', {**wit, 'detail': d})
+  if mode == 'failed-round':
+    failing = [(b'q2', ds[b'q2'], keys[6]), (b'q4', ds[b'q4'], keys[7]), (b'bad', fedjax.ClientDataset(bad), keys[8])]
+    try:
+      built.algo.apply(state1, failing)
+      ctx.count('failed-round-did-not-raise')
+    except Exception:  # pylint: disable=broad-except
+      ctx.count('hit:apfl-round-raised')
+    d = first(diff_snapshot(snap, state1))
+    ctx.check(d is None, 'purity/apfl-failed-round-changed-input-state',
+              f'a round in which the loss raised on a later client changed the state it was given ({d[0]} at {d[1]})' if d else '',
+              {**wit, 'detail': d})
+  again = ctx.call('apfl.apply', built.algo.apply, state1, cohort_b, witness=wit)
+  if again.ok:
+    dv = first(diff_values(ref.value, again.value))
+    ctx.check(dv is None, 'determinism/apfl-same-round-differs' + ('-after-failed-round' if mode == 'failed-round' else ''),
+              f'the same round from the same state gives a different result at {dv[0]}' if dv else '', {**wit, 'detail': dv})
+  ctx.case_done(('apfl-special', mode, case_no), sample=wit, klass=['apfl-special', 'apfl-' + mode])
+
+
 def run(ctx):
   import jax
   import fedjax
@@ -591,6 +650,8 @@ def run(ctx):
         run_history(ctx, jax, fedjax, dict(case, nojit=True), tmpdir)
       continue
     run_history(ctx, jax, fedjax, case, tmpdir)
+  for cid, rng in ctx.cases('apfl-special', 8 if ctx.quick else 48):
+    run_apfl_special(ctx, jax, fedjax, rng, int(cid.split('/')[1]))
 
 
 if __name__ == '__main__':
